@@ -7,6 +7,7 @@ package checks
 // configuration (DESIGN.md section 3).
 
 import (
+	"os"
 	"strings"
 	"sync"
 
@@ -46,8 +47,19 @@ var triggers = []trigger{
 	{"shadow-branch-commits", func(a *analysis, cfg sim.Config) bool {
 		return multiPar(cfg) && cfg.Variant != "mvp6-0" && a.shadowBranchSlow
 	}},
+	{"shadow-ring-overflow", func(a *analysis, cfg sim.Config) bool {
+		return multiPar(cfg) && renames(cfg.Variant) && a.shadowRingOverflow
+	}},
 	{"rename-order", func(a *analysis, cfg sim.Config) bool { return multiPar(cfg) && renames(cfg.Variant) && a.renameOrder }},
-	{"mem-conflict-undrained", func(a *analysis, cfg sim.Config) bool { return multiPar(cfg) && a.memConflict }},
+	{"mem-conflict-undrained", func(a *analysis, cfg sim.Config) bool {
+		if !multiPar(cfg) {
+			return false
+		}
+		if relaxF04(cfg) {
+			return a.memConflictHot
+		}
+		return a.memConflict
+	}},
 	{"l3-overflow-multicore", func(a *analysis, cfg sim.Config) bool {
 		return multiPar(cfg) && cfg.Variant == "mvp8-0" && a.l3Lines >= 32
 	}},
@@ -55,6 +67,24 @@ var triggers = []trigger{
 		return multiPar(cfg) && cfg.Variant == "mvp8-0" && a.l3StoreShared
 	}},
 	{"mvp60-memory-parallel", func(a *analysis, cfg sim.Config) bool { return multiPar(cfg) && cfg.Variant == "mvp6-0" && a.anyMem }},
+}
+
+// relaxF04: configurations on which conflicting accesses that both hit
+// resident lines, with nothing possibly missing in flight since the last drain,
+// are judged: MVP-6.1..6.3 and 7.0 at parallelism 2 order such pairs (campaigns
+// of 16 seeds x 2 000-2 500 PAIR and memory programs were silent there).
+func relaxF04(cfg sim.Config) bool {
+	if os.Getenv("VERIF_STRICT_F04") != "" {
+		return false // development aid: the conservative predicate everywhere
+	}
+	if cfg.Par != 2 {
+		return false
+	}
+	switch cfg.Variant {
+	case "mvp6-1", "mvp6-2", "mvp6-3", "mvp7-0":
+		return true
+	}
+	return false
 }
 
 func is6(v string) bool { return strings.HasPrefix(v, "mvp6") }
@@ -72,24 +102,35 @@ type analysis struct {
 	c *gen.Case
 	r *ref.Result
 
-	anyMem          bool
-	l3Lines         int  // distinct 128-byte lines the run touches
-	l3StoreShared   bool // a 128-byte line is stored to and touched by another memory instruction
-	storeMissFill   bool // F01 predicate (variant-independent part)
-	shadowError     bool // a wrong path reaches a division by zero
-	shadowWild      bool // a wrong path accesses an address outside memory or misaligned
-	shadowStore     bool // a wrong path holds an in-bounds store
-	shadowStoreSlow bool // ... and the branch is slow
-	shadowRegSlow   bool // a slow taken branch has a register write in its shadow
-	shadowLoadLater bool // a wrong-path load touches a line that is loaded again later
-	renameOrder     bool // WAW/WAR behind a slow instruction (see below)
+	anyMem bool
+	// a value read from memory reaches a branch operand, an address, a jump base
+	// or a divisor: a wrong loaded value could then change the path, the
+	// addresses or raise an error
+	loadFeedsControl bool
+	l3Lines          int  // distinct 128-byte lines the run touches
+	l3StoreShared    bool // a 128-byte line is stored to and touched by another memory instruction
+	storeMissFill    bool // F01 predicate (variant-independent part)
+	shadowError      bool // a wrong path reaches a division by zero
+	shadowWild       bool // a wrong path accesses an address outside memory or misaligned
+	shadowStore      bool // a wrong path holds an in-bounds store
+	shadowStoreSlow  bool // ... and the branch is slow
+	shadowRegSlow    bool // a slow taken branch has a register write in its shadow
+	shadowLoadLater  bool // a wrong-path load touches a line that is loaded again later
+	renameOrder      bool // WAW/WAR behind a slow instruction (see below)
 	// a slow taken branch with a conditional branch on its wrong path: the
 	// younger branch resolves first and commits speculative state
 	shadowBranchSlow bool
+	// the wrong path of a slow taken branch writes one register so often (>= 9
+	// times) that the 10-slot rename ring loses the older uncommitted write the
+	// rollback has to restore
+	shadowRingOverflow bool
 	// a slow taken branch whose wrong path writes a register that has an
 	// uncommitted older write (conservatively: written anywhere earlier in the run)
 	shadowWawUncommitted bool
 	memConflict          bool // same-line conflicting accesses without a drain in between
+	// ... at least one of them possibly missing the cache, or issued while an
+	// earlier possibly-missing access may still be in flight (not "calm")
+	memConflictHot bool
 }
 
 const shadowDepth = 24
@@ -114,7 +155,8 @@ const shadowDepth = 24
 // still be in flight while younger independent instructions complete; all the
 // overtaking findings need one.
 //
-// "drain": a taken conditional branch. On MVP-6.1 and later the misprediction
+// "drain": a taken conditional branch, or a jump executed for the first time
+// (it misses the branch target buffer). On MVP-6.1 and later the flush
 // completes every older instruction before the redirect.
 func analyse(c *gen.Case, r *ref.Result, storeSlow, loadSlow, prefSlow bool) *analysis {
 	a := &analysis{c: c, r: r}
@@ -157,6 +199,32 @@ func analyse(c *gen.Case, r *ref.Result, storeSlow, loadSlow, prefSlow bool) *an
 			}
 		}
 	}
+	// --- does a loaded value reach control, an address or a divisor?
+	{
+		var fromLoad [32]bool
+		for _, s := range tr {
+			in := c.Prog.Ins[s.Idx]
+			t := false
+			for _, x := range s.Reads {
+				if x != 0 && fromLoad[x] {
+					t = true
+				}
+			}
+			if t {
+				switch {
+				case s.CondBr, in.Op == "jalr", in.Op == "div", in.Op == "rem":
+					a.loadFeedsControl = true
+				case s.Load || s.Store:
+					if in.Rs1 != 0 && fromLoad[in.Rs1] {
+						a.loadFeedsControl = true
+					}
+				}
+			}
+			if s.Rd > 0 {
+				fromLoad[s.Rd] = s.Load || t
+			}
+		}
+	}
 	// --- slow / taint, rename order, memory conflicts
 	var tainted [32]bool
 	slow := make([]bool, len(tr))
@@ -168,16 +236,20 @@ func analyse(c *gen.Case, r *ref.Result, storeSlow, loadSlow, prefSlow bool) *an
 	var readSince [32]bool
 	var slowReaders [32]bool // a slow instruction (loads included: a load re-reads its base while it waits for a pending line) read the register since the last drain
 	type acc struct {
-		line  int32
-		store bool
-		load  bool
-		id    int
+		line     int32
+		store    bool
+		load     bool
+		id       int
+		resident bool // the line was surely resident when the access was issued
 	}
 	var accs []acc
 	dep := map[int]map[int]bool{} // reg -> ids of loads its value depends on
 	brSlowReaders := map[int][32]bool{}
 	sinceStoreMiss := false
 	sinceLoad := false
+	calm := true // no possibly-missing access since the last drain
+	jumpSeen := map[int]bool{}
+	residentBefore := map[int32]bool{}
 	loadedLines := map[int32]bool{}
 	brUncommitted := map[int][32]bool{}
 	var sinceBr [32]bool
@@ -217,9 +289,19 @@ func analyse(c *gen.Case, r *ref.Result, storeSlow, loadSlow, prefSlow bool) *an
 						continue // ordered by a register dependence on the older load
 					}
 					a.memConflict = true
+					if !calm || !o.resident || !(loadedLines[line] && len(loadedLines) <= 16) {
+						a.memConflictHot = true
+					}
 				}
 			}
-			accs = append(accs, acc{line, s.Store, s.Load, i})
+			res := residentBefore[line] && len(residentBefore) <= 16
+			accs = append(accs, acc{line, s.Store, s.Load, i, res})
+			if !res {
+				calm = false
+			}
+			if s.Load {
+				residentBefore[line] = true
+			}
 		}
 		// rename order (b): a younger writer of a register a slow instruction reads
 		if s.Rd > 0 && slowReaders[s.Rd] {
@@ -260,6 +342,21 @@ func analyse(c *gen.Case, r *ref.Result, storeSlow, loadSlow, prefSlow bool) *an
 			// may have an uncommitted write.
 			brUncommitted[i] = sinceBr
 		}
+		firstJump := false
+		if s.Jump && !jumpSeen[s.Idx] && os.Getenv("VERIF_NOJUMPDRAIN") == "" {
+			// a jump met for the first time misses the branch target buffer and
+			// flushes like a mispredicted branch (older instructions complete first)
+			jumpSeen[s.Idx] = true
+			firstJump = true
+		}
+		if firstJump && !(s.CondBr && s.Taken) {
+			sinceStoreMiss = false
+			sinceLoad = false
+			calm = true
+			accs = accs[:0]
+			lastW = [32]wr{}
+			slowReaders = [32]bool{}
+		}
 		if s.CondBr && s.Taken {
 			// the registers slow in-flight instructions (the branch included) still
 			// have to read when the wrong path starts
@@ -267,6 +364,7 @@ func analyse(c *gen.Case, r *ref.Result, storeSlow, loadSlow, prefSlow bool) *an
 			// drain
 			sinceStoreMiss = false
 			sinceLoad = false
+			calm = true
 			accs = accs[:0]
 			lastW = [32]wr{}
 			slowReaders = [32]bool{}
@@ -304,6 +402,8 @@ func analyse(c *gen.Case, r *ref.Result, storeSlow, loadSlow, prefSlow bool) *an
 		for i, s := range tr {
 			if s.CondBr && s.Taken {
 				w := m.Clone()
+				sawShadowBranch := false
+				var wrongWrites [32]int
 				w.Pc = s.Pc // re-execute the branch as not taken, then follow the fall-through path
 				for k := 0; k < shadowDepth+1; k++ {
 					idx := int(w.Pc / 4)
@@ -334,8 +434,20 @@ func analyse(c *gen.Case, r *ref.Result, storeSlow, loadSlow, prefSlow bool) *an
 						}
 						if in.Writes() > 0 && slow[i] {
 							a.shadowRegSlow = true
+							wrongWrites[in.Writes()]++
+							if wrongWrites[in.Writes()] >= 9 {
+								a.shadowRingOverflow = true
+							}
 						}
 						if in.IsCondBr() && slow[i] {
+							a.shadowBranchSlow = true
+							sawShadowBranch = true
+						}
+						if in.Op == "ret" && slow[i] && (sawShadowBranch || recentCondBr(tr, i, 8)) {
+							// a ret is held while a conditional branch is pending, but the
+							// single flag is cleared by whichever branch resolves first: with
+							// another conditional branch in flight around the slow one, a
+							// wrong-path ret can be released and end the run
 							a.shadowBranchSlow = true
 						}
 						if in.Writes() > 0 && slow[i] && brUncommitted[i][in.Writes()] {
@@ -347,7 +459,7 @@ func analyse(c *gen.Case, r *ref.Result, storeSlow, loadSlow, prefSlow bool) *an
 							a.renameOrder = true
 						}
 						if in.IsJump() || in.Op == "ret" {
-							break // decode stalls at an unconditional jump
+							break // decode stalls at an unconditional jump and stops at a ret
 						}
 					}
 					if _, ok := w.Step(true); !ok {
@@ -361,6 +473,17 @@ func analyse(c *gen.Case, r *ref.Result, storeSlow, loadSlow, prefSlow bool) *an
 		}
 	}
 	return a
+}
+
+// recentCondBr: a conditional branch among the n dynamic instructions before
+// step i.
+func recentCondBr(tr []ref.Step, i, n int) bool {
+	for k := i - 1; k >= 0 && k >= i-n; k-- {
+		if tr[k].CondBr {
+			return true
+		}
+	}
+	return false
 }
 
 func trigStoreMissThenFill(a *analysis, cfg sim.Config) bool {
@@ -420,6 +543,12 @@ func excludedBy(prop string, c *gen.Case, r *ref.Result, cfg sim.Config) string 
 			if p == prop {
 				applies = true
 			}
+		}
+		if applies && prop == "C07" && fd.Class == "memory-value" && !a.loadFeedsControl {
+			// C07 judges termination only: a finding that can only corrupt loaded
+			// values and the final memory cannot make this run hang or crash,
+			// because no loaded value reaches a branch, an address or a divisor
+			continue
 		}
 		if applies && tr.match(a, cfg) {
 			return fd.ID
